@@ -274,6 +274,13 @@ class MatAlg:
         assert type(x) is self.cls and len(x) == 1, f"result is {type(x).__name__} of length {len(x)}"
         return np.asarray(x.A, dtype=float)
 
+    def wrap_seq(self, lst):
+        return self.cls([np.array(a) for a in lst], check=False)
+
+    def unwrap_seq(self, x, k):
+        assert type(x) is self.cls and len(x) == k, f"result is {type(x).__name__} of length {len(x)}, expected {k}"
+        return [np.asarray(e.A, dtype=float) for e in x]
+
     def sample(self, rng):
         n = self.n
         R = rand_rot(rng) if n == 3 else rand_rot2_full(rng)
@@ -309,6 +316,13 @@ class QuatAlg:
     def unwrap(self, x):
         assert type(x) is UnitQuaternion and len(x) == 1, f"result is {type(x).__name__} of length {len(x)}"
         return np.asarray(x.vec, dtype=float)
+
+    def wrap_seq(self, lst):
+        return UnitQuaternion([np.array(a) for a in lst])
+
+    def unwrap_seq(self, x, k):
+        assert type(x) is UnitQuaternion and len(x) == k, f"result is {type(x).__name__} of length {len(x)}, expected {k}"
+        return [np.asarray(e.vec, dtype=float) for e in x]
 
     def sample(self, rng):
         R = rand_rot(rng)                       # rotation angle over [0, pi] incl. the ends
@@ -364,21 +378,30 @@ ALGS = [MatAlg('SO2', SO2, 2, False), MatAlg('SE2', SE2, 2, True), MatAlg('SO3',
 # expression trees: ('leaf', i) | ('id',) | ('mul', a, b) | ('div', a, b) | ('inv', a) | ('pow', a, n)
 
 
-def ev_impl(alg, t, leaves):
-    """evaluate with the class-level operators of the implementation"""
+def ev_impl(alg, t, leaves, diag=None):
+    """evaluate with the class-level operators of the implementation.  diag (SO2/SE2 only) records whether an
+    operand of .inv() -- a value the library computed itself -- fails the validity check that SO2.inv / SE2.inv
+    apply to their result (base.isR with 100 eps), which is the root cause of the known `inv-revalidates` finding"""
     k = t[0]
     if k == 'leaf':
         return leaves[t[1]]
     if k == 'id':
         return alg.cls()
+
+    def note(x):
+        if diag is not None and alg.name in ('SO2', 'SE2'):
+            Rb = np.asarray(x.A, float)[:2, :2]
+            if not base.isR(Rb.T):
+                diag['inv_check_fails'] = float(np.linalg.norm(Rb.T @ Rb - np.eye(2)))
+        return x
     if k == 'mul':
-        return ev_impl(alg, t[1], leaves) * ev_impl(alg, t[2], leaves)
+        return ev_impl(alg, t[1], leaves, diag) * ev_impl(alg, t[2], leaves, diag)
     if k == 'div':
-        return ev_impl(alg, t[1], leaves) / ev_impl(alg, t[2], leaves)
+        return ev_impl(alg, t[1], leaves, diag) / note(ev_impl(alg, t[2], leaves, diag))
     if k == 'inv':
-        return ev_impl(alg, t[1], leaves).inv()
+        return note(ev_impl(alg, t[1], leaves, diag)).inv()
     if k == 'pow':
-        return ev_impl(alg, t[1], leaves) ** t[2]
+        return ev_impl(alg, t[1], leaves, diag) ** t[2]
     raise ValueError(k)
 
 
@@ -510,8 +533,20 @@ def check_pair(ctx, alg, law, lt, rt, raw, tol=TOL):
             L = alg.unwrap(ev_impl(alg, lt, leaves))
             Rr = alg.unwrap(ev_impl(alg, rt, leaves))
     except Exception as ex:
-        ctx.fail(f"{key}:raises:{type(ex).__name__}", f"{alg.name}: evaluating {tree_str(lt)} == {tree_str(rt)} raises "
-                 f"{type(ex).__name__}: {ex}", dict(rep, exception=f"{type(ex).__name__}: {ex}"))
+        diag = {}
+        for tt in (lt, rt):
+            try:
+                ev_impl(alg, tt, leaves, diag)
+            except Exception:
+                pass
+        if 'inv_check_fails' in diag:
+            ctx.fail(f"oracle:{alg.name}:inv-revalidates:raises", f"{alg.name}: evaluating {tree_str(lt)} raises {type(ex).__name__}: {ex}; "
+                     f"the operand of .inv() is a value computed by the library whose orthogonality defect {diag['inv_check_fails']:.3g} "
+                     f"exceeds the 100 eps of the validity check inside {alg.name}.inv()",
+                     dict(rep, exception=f"{type(ex).__name__}: {ex}", operand_defect=diag['inv_check_fails']))
+        else:
+            ctx.fail(f"{key}:raises:{type(ex).__name__}", f"{alg.name}: evaluating {tree_str(lt)} == {tree_str(rt)} raises "
+                     f"{type(ex).__name__}: {ex}", dict(rep, exception=f"{type(ex).__name__}: {ex}"))
         return
     d = alg.dist(L, Rr) if np.all(np.isfinite(L)) and np.all(np.isfinite(Rr)) else float('inf')
     dref = alg.dist(L, ref) if np.all(np.isfinite(L)) else float('inf')
@@ -522,10 +557,43 @@ def check_pair(ctx, alg, law, lt, rt, raw, tol=TOL):
                  dict(rep, lhs_value=L.tolist(), rhs_value=Rr.tolist(), difference=d))
 
 
+def check_pair_seq(ctx, alg, law, lt, rt, raws, k):
+    """the same law on multi-valued objects: leaf j holds len(raws[j]) in {1, k} elements; both sides must have
+    k elements, agree elementwise, and element i must be the value of the law on the i-th elements"""
+    key = f"oracle:{alg.name}:{law}:seq"
+    ctx.count(key)
+    ctx.case((alg.name, law, 'seq', tuple(np.concatenate([r.flatten() for rr in raws for r in rr]))))
+    rep = {'class': alg.name, 'law': law, 'lhs': tree_str(lt), 'rhs': tree_str(rt), 'lengths': [len(r) for r in raws],
+           'operands_hex': [[hexl(r) for r in rr] for rr in raws]}
+    try:
+        leaves = [alg.wrap_seq(rr) if len(rr) > 1 else alg.wrap(rr[0]) for rr in raws]
+        with np.errstate(all='ignore'):
+            L = alg.unwrap_seq(ev_impl(alg, lt, leaves), k)
+            Rr = alg.unwrap_seq(ev_impl(alg, rt, leaves), k)
+    except Exception as ex:
+        ctx.fail(f"{key}:raises:{type(ex).__name__}", f"{alg.name} (sequences of length {[len(r) for r in raws]}): evaluating "
+                 f"{tree_str(lt)} == {tree_str(rt)} raises {type(ex).__name__}: {ex}", dict(rep, exception=f"{type(ex).__name__}: {ex}"))
+        return
+    for i in range(k):
+        raw_i = [rr[i] if len(rr) > 1 else rr[0] for rr in raws]
+        track = [max(alg.tmag(r) for r in raw_i)]
+        ref = ev_ref(alg, lt, raw_i, track)
+        ev_ref(alg, rt, raw_i, track)
+        scale = max(1.0, track[0])
+        fin = np.all(np.isfinite(L[i])) and np.all(np.isfinite(Rr[i]))
+        d = max(alg.dist(L[i], Rr[i]), alg.dist(L[i], ref)) if fin else float('inf')
+        ctx.stats['worst:' + key] = max(ctx.stats.get('worst:' + key, 0.0), d / scale)
+        if not d <= TOL * scale:
+            ctx.fail(f"{key}:value", f"{alg.name} (sequences of length {[len(r) for r in raws]}): element {i} of {tree_str(lt)} / "
+                     f"{tree_str(rt)} / the value on the {i}-th elements differ by {d:g} (allowed {TOL:g} * {scale:g})",
+                     dict(rep, element=i, lhs_value=L[i].tolist(), rhs_value=Rr[i].tolist(), reference=ref.tolist(), difference=d))
+            return
+
+
 def oracle_groups(ctx):
     rng = ctx.rng
-    N = ctx.n(150, 6000)
-    NT = ctx.n(120, 5000)
+    N = ctx.n(400, 8000)
+    NT = ctx.n(300, 8000)
     for alg in ALGS:
         for i in range(N):
             raw = [alg.sample(rng) for _ in range(3)]
@@ -536,6 +604,18 @@ def oracle_groups(ctx):
             n = int(rng.integers(-8, 9))
             for law, lt, rt in laws(n):
                 check_pair(ctx, alg, law, lt, rt, raw)
+        # the same laws on sequences (length k against k, k against 1, 1 against k)
+        for i in range(ctx.n(40, 800)):
+            k = int(rng.integers(2, 5))
+            shape = [(k, k, k), (k, 1, k), (1, k, 1), (k, k, 1)][i % 4]
+            raws = [[alg.sample(rng) for _ in range(m)] for m in shape]
+            n = int(rng.integers(-8, 9))
+            for law, lt, rt in laws(n):
+                uses = {('XYZ'.index(c)) for c in tree_str(lt) + tree_str(rt) if c in 'XYZ'}
+                kk = max(len(raws[j]) for j in uses)
+                if kk == 1:
+                    continue
+                check_pair_seq(ctx, alg, law, lt, rt, raws, kk)
         # the base-layer structured inverses are the true matrix inverse
         if alg.name in ('SE2', 'SE3'):
             f = base.trinv if alg.name == 'SE3' else base.trinv2
@@ -556,6 +636,12 @@ def oracle_groups(ctx):
                     ctx.fail(f'oracle:{alg.name}:trinv:value', f"{f.__name__}(T) is not the two-sided inverse of T: residual {d:g} "
                              f"(allowed {TOL:g} * {scale:g})", {'T_hex': hexl(T), 'residual': d})
         # random expression trees, depth <= 5, against the word they denote (only `*` and leaf inverses)
+        if alg.name in ('SO2', 'SE2'):
+            # deterministic instance of the known `inv-revalidates` finding: ((X**-8)**-8).inv()
+            c, s_ = math.cos(-3.14), math.sin(-3.14)
+            X0 = np.array([[c, -s_], [s_, c]]) if alg.name == 'SO2' else np.array([[c, -s_, 1.0], [s_, c, 2.0], [0, 0, 1.0]])
+            t0 = ('inv', ('pow', ('pow', ('leaf', 0), -8), -8))
+            check_pair(ctx, alg, 'tree', t0, word_tree(word(t0)), [X0, X0.copy(), X0.copy()])
         k = 0
         while k < NT:
             t = rand_tree(rng, 5)
@@ -679,7 +765,7 @@ def twist_cause(name, diag):
 
 def oracle_twists(ctx):
     rng = ctx.rng
-    N = ctx.n(150, 5000)
+    N = ctx.n(150, 3000)
     X, Y, Z, I = ('leaf', 0), ('leaf', 1), ('leaf', 2), ('id',)
     tlaws = [('assoc', ('mul', ('mul', X, Y), Z), ('mul', X, ('mul', Y, Z))),
              ('compose', ('mul', X, Y), None),
